@@ -391,7 +391,7 @@ package tree
 //@ pred isUnsignedType(n) = n == "uint8" || n == "uint16" || n == "uint32" || n == "uint64"
 //@ pred isSignedType(n) = n == "int8" || n == "int16" || n == "int32" || n == "int64"
 // the verdict of one element under a type schema
-//@ pred elemOK(ts, e) = (isUnsignedType(ts.TypeName) ==> inURange(ts.Range, e.GetUintVal())) && (isSignedType(ts.TypeName) ==> inSRange(ts.Range, e.GetIntVal()))
+//@ pred elemOK(ts, e) = (isUnsignedType(ts.Type) ==> inURange(ts.Range, e.GetUintVal())) && (isSignedType(ts.Type) ==> inSRange(ts.Range, e.GetIntVal()))
 
 // The verdict of validateRange is composed of proved parts: URnges/SRnges.AddRange and IsWithinAnyRange have full
 // contracts (package utils); here the wiring is asserted for every iteration: each declared range is added with its own
